@@ -10,9 +10,10 @@ every terminal width function `tw`, every cursor request and every prior termina
   * `flush_resets_pen`    a frame that writes any cell resets the pen whatever it was before
   * `cursor_as_requested` after every frame the hardware cursor is hidden, or visible at the
                           requested position and shape
-The cell-content clause (`frame_displays_full` below) is stated in full; it is validated on the
-implementation by the oracle of the correspondence check (every frame of every generated
-history) and is the next proof target — see DESIGN.md.
+The cell-content clause is proved in Props/C01Display.lean (`frame_displays_partial`,
+`history_displays`). `frame_displays_full` below is the first, too optimistic, statement: it is
+FALSE of the model (five missing side conditions, each refuted by a concrete witness in
+Witness/C01Display.lean) and is kept visible for that reason.
 -/
 import VaxisModel.Lemmas.RenderToks
 import VaxisModel.Spec.Expected
@@ -286,7 +287,7 @@ theorem cursor_as_requested (tw cw : String → Nat) (f : Frame) (t : Term)
           intro v; split <;> simp [visRun, visStep]
         rw [h2, hbq, h3]; simpa [visRun, visStep] using ht
 
-/-! ### The cell-content clause, stated in full (not yet proved; validated on the implementation) -/
+/-! ### The cell-content clause: first statement (refuted; the proved one is in Props/C01Display.lean) -/
 
 /-- No visible glyph of the application's grid extends past the end of its row (known finding F02
     is exactly the negation: such a glyph is written as is and what the terminal shows is terminal
